@@ -466,7 +466,8 @@ func filesHuman(fs scriggo.Files, run string) string {
 	return b.String()
 }
 
-// Known finding qualified-imported-var-in-closure (fixes/C16-qualified-imported-var-in-closure.NOT-APPLIED.md):
+// Former finding qualified-imported-var-in-closure, repaired by ccfaf1d (second fix series,
+// fixes/C16-qualified-imported-var-in-closure.md; class inactive without an entry in known_findings.json):
 // a variable of a template file imported with a package name, read as `p.V` inside a function body
 // (macro body or function literal), is emitted as GetVar with the index of the *global* while the
 // function's VarRefs has no entry for it: Run panics "index out of range", or another variable's slot
